@@ -66,6 +66,10 @@ def run(F, R):
             q1_pop_readd(F, R, M, b, roles, byrole)
     q5_stocking(F, R, M, roles, byrole)
     q12_no_event_dropped(F, R, M)
+    # Q13: stocked queues post single-buffer chains, which are submitted directly even when indirect descriptors were negotiated: the
+    # release path picks its branch by the head descriptor's own flag (C03.E14)
+    from .C03 import e14_release_form
+    guard(R, 'Q13', 'release-form', lambda: e14_release_form(F, R, M, rule='Q13'))
     q4b_exposure_table(F, R, M, roles)
     q6_no_access_after_post(F, R, M, roles)
     from .C03 import counters_rule
